@@ -129,6 +129,10 @@ pub fn static_family() -> Vec<(String, Program)> {
                     let_(Pat::id("g"), u(8), call(CallName::UnwrapLeft(Ty::Bool), vec![var("e")])),
                     let_(Pat::Tuple(vec![]), Ty::unit(), Expr::Tuple(vec![])),
                     s(assert_(jet("eq_8", vec![var("g"), dec(1)]))),
+                    // match arms whose bodies are stacked redundant wrappers: { (e) }, ({ e }), { { e } }, ((e))
+                    let_(Pat::id("w1"), u(8), match_(var("y"), (MPat::True, block(vec![], Some(Expr::Paren(Box::new(var("g")))))), (MPat::False, Expr::Paren(Box::new(block(vec![], Some(var("w")))))))),
+                    let_(Pat::id("w2"), u(8), match_(var("y"), (MPat::True, block(vec![], Some(block(vec![], Some(var("g")))))), (MPat::False, Expr::Paren(Box::new(Expr::Paren(Box::new(var("w")))))))),
+                    s(assert_(jet("eq_8", vec![var("w1"), var("w2")]))),
                     let_(Pat::Array(vec![Pat::id("z0"), Pat::Ignore]), Ty::arr(u(1), 2), var("z")),
                     s(assert_(jet("eq_1", vec![var("z0"), dec(0)]))),
                 ],
@@ -280,6 +284,8 @@ pub fn static_family() -> Vec<(String, Program)> {
                     vec![],
                     None,
                     vec![
+                        // a match whose arms are plain expressions comes first: nothing of it may reach the blocks below
+                        let_(Pat::id("m"), u(8), match_(wit("M"), (MPat::True, dec(1)), (MPat::False, dec(0)))),
                         let_(Pat::id("a"), u(8), dec(1)),
                         s(block(
                             vec![
